@@ -308,6 +308,19 @@ def check(F, rep, tier):
         has_parse = any("parse" in (mir.callee(t) or "") and (t[1].get("targs") or [""])[0] == "u32" for g_, bi, t in calls_pu)
         propagated = any("Try>::branch" in (mir.callee(t) or "") or (mir.callee(t) or "").endswith("::transpose") for g_, bi, t in calls_pu)
         swallowed = [(mir.callee(t) or "").rsplit("::", 1)[-1] for g_, bi, t in calls_pu if "ParseIntError" in (t[1].get("full") or "") and (mir.callee(t) or "").rsplit("::", 1)[-1] in ("ok", "unwrap_or", "unwrap_or_default", "unwrap_or_else", "is_ok")]
+        if has_parse and not propagated and not swallowed:
+            # `match val.parse::<u32>() { Ok(n) => Ok(Some(n)), Err(_) => Err(..) }`: every path on which the parse failed returns Err
+            try:
+                err_paths = ok_on_err = 0
+                for sp in mir.sym_paths(pu, limit=5000):
+                    failed = any(d[0] == "discr" and isinstance(d[1], tuple) and d[1][0] == "call" and str(d[1][1]).endswith("str>::parse") and isinstance(tr, tuple) and ((tr[0] == "eq" and 1 in tr[1]) or (tr[0] == "ne" and 0 in tr[1])) for d, tr, b in sp.facts())
+                    if not failed: continue
+                    err_paths += 1
+                    r = sp.ret()
+                    if not ((r[0] == "agg" and str(r[1]).endswith("Result::Err")) or (r[0] == "call" and "from_residual" in str(r[1]))): ok_on_err += 1
+                if err_paths and not ok_on_err: propagated = True
+            except mir.TooManyPaths:
+                pass
         if has_parse and propagated and not swallowed: rep.ok("R05.6", "non-numeric value for a numeric component is an error (parse::<u32>() failure propagated)", nontrivial_key="nonnum")
         elif swallowed: rep.bad("R05.6", "non-numeric-accepted", "parse_optional_u32 discards a parse failure with %s" % swallowed, pu.where())
         elif not has_parse: rep.undecided("R05.6", "parse-optional-shape", "parse_optional_u32 does not parse with str::parse::<u32>", pu.where())
